@@ -9,6 +9,8 @@ import propinfo
 EDITS = {
  'rename-local-ret': ('src/loop_logic.rs', [('let ret = match result {', 'let action = match result {'), ('                match ret {\n                    PostAction::Reregister', '                match action {\n                    PostAction::Reregister')]),
  'reorder-generic-register': ('src/sources/generic.rs', [('        self.poller = Some(poll.poller().clone());\n        self.token = Some(token);\n\n        Ok(())\n    }\n\n    fn reregister', '        self.token = Some(token);\n        self.poller = Some(poll.poller().clone());\n\n        Ok(())\n    }\n\n    fn reregister')]),
+ 'generic-unregister-poller-guard': ('src/sources/generic.rs', [('        // Likewise: only a registration this source holds is taken out of the poller.\n        if self.token.is_none() {', '        // Likewise: only a registration this source holds is taken out of the poller.\n        if self.poller.is_none() {')]),
+ 'timer-reregister-guard-form': ('src/sources/timer.rs', [('        if !self.registered {\n            return Ok(());\n        }\n        self.unregister(poll)?;\n        self.register(poll, token_factory)', '        if self.registered {\n            self.unregister(poll)?;\n            self.register(poll, token_factory)?;\n        }\n        Ok(())')]),
  'extra-trace': ('src/loop_logic.rs', [('        let slot = sources.vacant_entry();\n', '        let slot = sources.vacant_entry();\n        trace!("picked a slot");\n')]),
  'comments-whitespace': ('src/token.rs', [('    pub(crate) fn same_source_as(self, other: TokenInner) -> bool {', '    // two tokens belong to the same source registration\n    pub(crate) fn same_source_as(self,   other: TokenInner) -> bool {')]),
  'cvt-mode-if-chain': ('src/sys.rs', [('    match mode {\n        Mode::Edge => PollMode::Edge,\n        Mode::Level => PollMode::Level,\n        Mode::OneShot => PollMode::Oneshot,\n    }', '    if let Mode::Edge = mode {\n        PollMode::Edge\n    } else if let Mode::Level = mode {\n        PollMode::Level\n    } else {\n        PollMode::Oneshot\n    }')]),
